@@ -435,6 +435,10 @@ class KexGroupExchange(KexDH):
         except (struct.error, ValueError):
             raise KexDHException("Error while parsing modulus and generator during GEX init: %s" % str(traceback.format_exc())) from None
 
+        # We never ask for more than 8192 bits.  A much larger modulus would keep us busy with a single modular exponentiation for minutes (the cost grows with the cube of the size), so do not let the server choose how long this takes.
+        if p.bit_length() > 16384:
+            raise KexDHException("Server sent a %u-bit group, which is far larger than any size requested (max: %u bits)." % (p.bit_length(), maxbits))
+
         # Now that we got the generator and modulus, perform the DH exchange
         # like usual.
         super(KexGroupExchange, self).set_params(g, p)
